@@ -46,6 +46,7 @@ struct Rec
 	uint64_t dh = 0 ;			// digest of data returned / auxiliary value
 	bool skipped = false ;
 	bool faulted = false ;
+	int64_t frames = -1 ;		// model frame count of the handle after the op
 } ;
 
 struct DataDesc
@@ -83,6 +84,7 @@ struct ExecOpts
 	bool strict = true ;			// fault-free discipline: all model clauses on
 	bool io_trace = true ;
 	bool record_io = false ;
+	const std::map<std::string, std::vector<uint8_t>> *preload = nullptr ;		// stores present before the first op
 } ;
 
 Result execute (const J &plan, const ExecOpts &opts = ExecOpts ()) ;
